@@ -251,6 +251,9 @@ impl Suite for Prog {
         if focus == "C13" || (focus.is_empty() && idx % 4 == 0) {
             lines.push(format!("filter {}", rng.below(5)));
         }
+        if (focus == "C13" && idx % 2 == 0) || (focus == "C01" && idx % 4 == 1) {
+            lines.push(format!("prehost {}", rng.below(3)));
+        }
         lines.extend(prog.lines());
         lines
     }
@@ -264,10 +267,12 @@ impl Suite for Prog {
         }
         let mut max_level: Option<u8> = None;
         let mut start: Option<u32> = None;
+        let mut prehost: Option<u8> = None;
         for l in &rest {
             let mut t = Toks::new(l);
             match t.next() {
                 Some("filter") => max_level = t.num(),
+                Some("prehost") => prehost = t.num(),
                 Some("sender") => {
                     t.next();
                     start = t.num();
@@ -291,6 +296,21 @@ impl Suite for Prog {
             }
             out.tags.push("sender-start-preset".into());
             return out;
+        }
+        // ---- an earlier host of the same process with a different (restrictive) filter sees the
+        // ---- program first: whatever the process remembers about call sites must not leak into
+        // ---- what a later host observes
+        if let Some(level) = prehost {
+            let (events, _) = sender_stream(&prog, None);
+            let early = StrictHost::new(Some(level));
+            let ed = Dispatch::new(early.clone());
+            dispatcher::with_default(&ed, || {
+                let mut recv = TracingEventReceiver::default();
+                for e in events {
+                    let _ = recv.try_receive(e);
+                }
+            });
+            out.tags.push("prehost".into());
         }
         // ---- native
         let native = StrictHost::new(max_level);
